@@ -260,7 +260,9 @@ def linkage_audit(ctx, out):
         for d in stray:
             breaks.append(f"linkage:theorem {t} is stated over model definition {d}, which the driver never "
                                   f"executes and lean/linkage.json does not list as specification-side")
-        code_side = [d for d in ex if not d.startswith("NgVerif.Generated.")]
+        # definitions translated from the source (Generated.Src) are tied by the translator, like executed ones
+        code_side = [d for d in ex if not d.startswith("NgVerif.Generated.")] + \
+            [d for d in ne if d.startswith("NgVerif.Generated.Src.")]
         if not code_side and t not in pure:
             breaks.append(f"linkage:theorem {t} mentions no model definition executed by the driver and is not "
                                   f"listed as a purely mathematical statement")
@@ -278,6 +280,17 @@ def prepare(ctx):
                 ctx.notes.append("Generated/Tables.lean rewritten from the source")
         except tables.TableError as exc:
             ctx.tie_breaks.append(f"tables:{exc}")
+        try:
+            from . import translate
+            changed, _ = translate.regenerate()
+            if changed:
+                ctx.notes.append("Generated/Exprs.lean re-translated from the source")
+            ctx.stats["translated_source"] = dict(translate.STATUS)
+            for name, st in translate.STATUS.items():
+                if st.startswith("NOT"):
+                    ctx.notes.append(f"translator: {name}: {st}")
+        except tables.TableError as exc:
+            ctx.tie_breaks.append(f"translate:{exc}")
         rc, out = lake_build(["ngdriver"])
         ctx.driver_ok = rc == 0 and os.path.exists(paths.DRIVER)
         if not ctx.driver_ok:
